@@ -508,12 +508,46 @@ def user_weights(ctx):
                 ctx.violation("user-weights:integral", f"{mname} (store={store}): integrate differs from sum of w_atomic x callable x f", case)
 
 
+def shared_weights_object(ctx):
+    """One BeckeWeights / HirshfeldWeights object handed to several molecular grids (a geometry scan, different molecules):
+    every grid's weights are those of a grid built with its own fresh weights object (seeded change C07-G)."""
+    from grid.atomgrid import AtomGrid
+    from grid.becke import BeckeWeights
+    from grid.hirshfeld import HirshfeldWeights
+    from grid.molgrid import MolGrid
+
+    rg = small_rgrid(1)
+    nums = np.array(MOLS["H2O"][0])
+    base = np.array(MOLS["H2O"][1], dtype=float)
+    geoms = [base, base * 1.25 + np.array([0.0, 0.1, -0.2]), base[[0, 2, 1]] * 0.9]
+    for wname, make in (("becke", lambda: BeckeWeights(order=3)), ("hirshfeld", lambda: HirshfeldWeights())):
+        shared = make()
+        for k, coords in enumerate(geoms):
+            for route in ("direct", "from_size"):
+                ctx.count(section="shared-weights-object")
+                case = {"route": "shared-weights", "weights": wname, "geometry": k, "constructor": route}
+                with warnings.catch_warnings():
+                    warnings.simplefilter("ignore")
+                    def build(aim):
+                        if route == "direct":
+                            ats = [AtomGrid(rg, degrees=[5], center=coords[i], rotate=0) for i in range(3)]
+                            return MolGrid(nums, ats, aim, store=False)
+                        return MolGrid.from_size(nums, coords, 26, rgrid=rg, aim_weights=aim, rotate=0)
+                    a, b = build(shared), build(make())
+                ctx.nontrivial(("shared", wname, k, route), section="shared-weights-object")
+                if not (np.array_equal(a.points, b.points) and np.allclose(a.weights, b.weights, rtol=1e-13, atol=0)
+                        and np.allclose(a.aim_weights, b.aim_weights, rtol=1e-13, atol=1e-300)):
+                    ctx.violation(f"shared-weights-object:{wname}:depends-on-earlier-grids", f"geometry {k} ({route}): a molecular grid built with a "
+                                  f"weights object that served other grids before differs from one built with a fresh object", case)
+
+
 def run(ctx):
     from vf.props.c05 import PRESETS
 
     ctx.guarded("structural", structural, ctx)
     ctx.guarded("forms", forms, ctx)
     ctx.guarded("user-weights", user_weights, ctx)
+    ctx.guarded("shared-weights", shared_weights_object, ctx)
     from vf import explore
 
     for store in (False, True):
@@ -542,6 +576,8 @@ def replay(ctx, case):
         forms(ctx)
     elif case.get("route") == "user-weights":
         user_weights(ctx)
+    elif case.get("route") == "shared-weights":
+        shared_weights_object(ctx)
     elif case.get("route") == "structure":
         out = _struct_case((tuple(case["cfg"]), ctx.seed))
         ctx.merge(out[0] if isinstance(out, tuple) else out)
